@@ -1459,8 +1459,27 @@ func ruleSubQueryWhole(c *Ctx, rule string) {
 					continue
 				}
 				f, base := fieldOfAddr(st.Addr)
-				if f == nil || f.Name() != "query" || base == nil || !targets[namedOf(base.Type())] {
+				if f == nil || f.Name() != "query" || base == nil {
 					continue
+				}
+				// the set-function nodes themselves, or the operand part they share (a struct of the package that
+				// holds the set symbol and the optional query and is embedded in them)
+				if bt := namedOf(base.Type()); !targets[bt] {
+					ok := false
+					if bt != nil && bt != subq && bt.Obj().Pkg() == subq.Obj().Pkg() {
+						for tgt := range targets {
+							if tst, isSt := tgt.Underlying().(*types.Struct); isSt {
+								for i := 0; i < tst.NumFields(); i++ {
+									if tst.Field(i).Embedded() && namedOf(tst.Field(i).Type()) == bt {
+										ok = true
+									}
+								}
+							}
+						}
+					}
+					if !ok {
+						continue
+					}
 				}
 				n++
 				c.Analysed(FnName(fn))
